@@ -755,6 +755,23 @@ CLAIMS["C04"]["note"] += (
     "function; at the real end advance() still pushes an Advance that build_tree ignores — example `if 1 { }`: 5 Advances, 4 tokens).")
 
 
+CLAIMS["C04"]["note"] += (
+    " Round 11: Gen/MatchDispatch.lean (regenerated from compile_match.rs compile_rows / move_variable_patterns / branch_variable, tast.rs enum Ty and "
+    "typer/check.rs check_pat_unit / _bool / _string / _int / _typed_int, is_integer_ty, is_float_ty, integer_literal_target) with Props/C04.lean "
+    "match_dispatch_partitions_ty (each of the 24 Ty variants either has a case in compile_rows or ends in panic!/unreachable!), "
+    "literal_pattern_type_has_match_case (every type a literal-pattern checker equates the scrutinee's type with - on every path, asserted by the "
+    "extractor - has a case), float_pattern_would_panic, unsuffixed_int_pattern_default_has_case: statements about the two TABLES only; that the "
+    "equation is then solved or reported is C03's unifier/solver theorems, and constructor / tuple patterns are not in the table. SEARCHED in "
+    "addition: stream pat-scrut (harness/src/patcat.rs), the deterministic catalogue pattern form (29: unsuffixed / out-of-range / suffixed integers, "
+    "string, bool, unit, tuples, constructors incl. wrong arity and undefined, struct patterns, wildcard, binder) x scrutinee type (27: every integer "
+    "and float width, bool, string, unit, tuples, generic and plain enums, structs, generic structs, Vec, Ref, array, closure, dyn) x route by which the "
+    "scrutinee's type becomes known (23: concrete when the pattern is checked - parameter, annotated let, literal - or an inference variable resolved "
+    "later or never - call, generic call, method, trait method, closure parameter fixed by a later call / a later use / a generic higher-order function / "
+    "never, closure call, generic-struct field, ref_get / vec_get / array_get, if / match / block join, tuple or constructor binder, type parameter) x "
+    "position (top, tuple component, constructor argument, struct field, nested) x form (match with catch-all, only arm, let), cut to about 5.6k texts in "
+    "the quick tier, each through parse, compile, check_package, build_package, link_cores and the three queries; gen-ill's wrongly typed hole now also "
+    "takes any other primitive type (float for int, int64 for int32, ...).")
+
 def main():
     checks = []
     for pid in ALL:
